@@ -118,9 +118,22 @@ func report(prop, tier string, seed int, out string, results []jobResult, loaded
 	var lines []string
 	nViol := 0
 	printedKnown := map[string]bool{}
+	printedPer := map[string]int{}
+	confirmedAssert := map[string]bool{}
+	for _, v := range viols {
+		if v.Replayed == "confirmed" {
+			confirmedAssert[v.Harness+"/"+v.Name] = true
+		}
+	}
 	for _, v := range viols {
 		key := violationKey(v)
 		if v.Replayed == "not-reproduced" || v.Replayed == "error" {
+			if confirmedAssert[v.Harness+"/"+v.Name] {
+				// the same assertion of the same harness is confirmed natively for another instance; this
+				// model depends on values of an uninterpreted function and adds nothing
+				notes = append(notes, "unconfirmed additional model for "+key+" (same assertion confirmed natively in another instance)")
+				continue
+			}
 			engineErrs = append(engineErrs, "UNCONFIRMED model for "+key+": "+v.Replayed)
 			continue
 		}
@@ -138,6 +151,10 @@ func report(prop, tier string, seed int, out string, results []jobResult, loaded
 		if !matched {
 			nViol++
 			exit = 1
+			printedPer[v.Harness+"/"+v.Name]++
+			if printedPer[v.Harness+"/"+v.Name] > 3 {
+				continue
+			}
 			rp := v.Replay
 			if rp == "" {
 				rp = "(no replay: --no-replay)"
@@ -167,7 +184,11 @@ func report(prop, tier string, seed int, out string, results []jobResult, loaded
 	for _, u := range unknown {
 		fmt.Println("  UNDISCHARGED", firstN(u, 400))
 	}
-	for _, n := range replayNotes {
+	for i, n := range replayNotes {
+		if i >= 8 {
+			fmt.Printf("  replay: ... %d more notes in the evidence file\n", len(replayNotes)-i)
+			break
+		}
 		fmt.Println("  replay:", n)
 	}
 
@@ -198,32 +219,32 @@ func report(prop, tier string, seed int, out string, results []jobResult, loaded
 		ev := map[string]any{
 			"property_id": prop, "tier": tier, "seed": seed, "level": "model_checking",
 			"coverage": map[string]any{
-				"states":                        max(paths, 1),
-				"transitions":                   max(steps, 1),
-				"traces_validated_against_impl": validated,
-				"samples":                       samples,
-				"obligations":                   oblig,
-				"discharged":                    proved + folded,
-				"discharged_by_solver":          proved,
+				"states":                         max(paths, 1),
+				"transitions":                    max(steps, 1),
+				"traces_validated_against_impl":  validated,
+				"samples":                        samples,
+				"obligations":                    oblig,
+				"discharged":                     proved + folded,
+				"discharged_by_solver":           proved,
 				"discharged_by_constant_folding": folded,
-				"undischarged":                  unknown,
-				"undecided_paths":               undecided,
-				"evaluations":                   max(oblig, 1),
-				"distinct_nontrivial":           nontrivial,
-				"rule":                          "one evaluation = one assertion instance on one symbolic path of one harness instance; non-trivial = needed a solver verdict (not decided by constant folding); states = symbolic paths, transitions = SSA instructions executed symbolically",
-				"complete_paths":                complete,
-				"harness_instances":             caseSumm,
-				"functions_encoded":             fl,
-				"intrinsics_and_stubs":          sortedKeys(intr),
-				"source_sha256":                 files,
-				"solver":                        solver,
-				"solver_time_s":                 stime,
-				"bounds_and_notes":              notes,
-				"reachability_witnesses":        firstAny(witnesses, 5),
-				"violations_detail":             vs,
-				"engine_errors":                 engineErrs,
-				"replay_notes":                  replayNotes,
-				"exhaustive":                    false,
+				"undischarged":                   unknown,
+				"undecided_paths":                undecided,
+				"evaluations":                    max(oblig, 1),
+				"distinct_nontrivial":            nontrivial,
+				"rule":                           "one evaluation = one assertion instance on one symbolic path of one harness instance; non-trivial = needed a solver verdict (not decided by constant folding); states = symbolic paths, transitions = SSA instructions executed symbolically",
+				"complete_paths":                 complete,
+				"harness_instances":              caseSumm,
+				"functions_encoded":              fl,
+				"intrinsics_and_stubs":           sortedKeys(intr),
+				"source_sha256":                  files,
+				"solver":                         solver,
+				"solver_time_s":                  stime,
+				"bounds_and_notes":               notes,
+				"reachability_witnesses":         firstAny(witnesses, 5),
+				"violations_detail":              vs,
+				"engine_errors":                  engineErrs,
+				"replay_notes":                   replayNotes,
+				"exhaustive":                     false,
 			},
 			"assumptions": assumptionsFor(prop),
 			"wall_s":      wall.Seconds(),
